@@ -10,6 +10,12 @@ CLAIMED = {
  'C02': ('proof', 'deductive VCs from the real AST (pyvc): representation invariant pKa = model + SUM established by calculate_total_pka (fold rule), ghost stale-flag sequencing proof of calculate_pka, swap/undo proof of the coupling probe on symbolic determinant lists, averaging, rendering ropes; frame census of writers',
          'INV proved to be established, preserved by the coupling probe and by averaging, and re-established on every path of calculate_pka; printed rows proved to be exactly the determinants. Numeric text (2 decimals) only by the bounded monitor.',
          'A-REAL; writers abstracted by the declared frame list; list shapes <= 4 in swap proofs'),
+ 'C05': ('proof', 'deductive VCs from the real AST (pyvc): cut-off stutter lemmas on the desolvation / reorganisation loops, pair-enumeration proof of set_determinants with equally labelled groups, closest-pair post of get_smallest_distance over abstract squared distances, identity of Iterative objects, early return of the coupling probe; GROUND cut-offs',
+         'beyond the cut-off every interaction routine leaves its state unchanged; pair loops and the iterative solver tell groups apart by identity; the closest pair is always found (no sentinel) - proved for all real inputs. Fixed point of the iterative sweep: not proved (bounded).',
+         'composition step + bounded monitor (two sets at 85 A ... 9000 A, both file orders, own copy)'),
+ 'C06': ('other', 'deductive VCs from the real AST (pyvc) for every reader of residue/chain labels (label equality only), sort-key monotonicity, identity of equally labelled groups; frame census of the label fields; bounded relabelling monitor',
+         'labels enter the numbers only through equality tests - proved for the identity the code uses (chain, number). The insertion-code clause is refuted (known finding D9), so the level is "other".',
+         'composition step; atom order only permutes commutative sums (A-REAL)'),
  'C07': ('proof', 'deductive VCs from the real AST (pyvc): stutter lemmas and hydrogen-absorption lemma on the record loop, element-inference VC on a symbolic atom-name field, idempotence of protonate_atom, option plumbing; syntactic column frame of Atom.set_properties and sink-only frame of serial/occupancy/B-factor',
          'records the model ignores leave the reader state unchanged and yield nothing (all loop states, all column contents); hydrogen records are absorbed; set_properties reads only the documented columns; stored-but-unused fields reach sinks only.',
          'stutter rule + composition step; the own-hydrogens round trip and --protonate-all rest on idempotence + bounded monitor'),
